@@ -148,6 +148,16 @@ impl Layer for DialogLayer {
 }
 
 impl DialogLayer {
+    /// verification hook: (number of dialogs, total number of backlogged requests)
+    #[cfg(feature = "ezk-verif")]
+    pub fn verif_counts(&self) -> (usize, usize) {
+        let dialogs = self.dialogs.lock();
+        (
+            dialogs.len(),
+            dialogs.values().map(|entry| entry.backlog.len()).sum(),
+        )
+    }
+
     async fn handle_unwanted_request(
         &self,
         endpoint: &Endpoint,
